@@ -10,6 +10,7 @@ import (
 	"io"
 
 	"github.com/avos-io/goat/gen/testproto"
+	"github.com/avos-io/goat/internal/server"
 	"google.golang.org/grpc"
 	"google.golang.org/grpc/metadata"
 )
@@ -343,4 +344,41 @@ func H_C04_stream_md() {
 		vfAssert(len(trl["t"]) == 1 && trl["t"][0] == t1, "trailer-arrives")
 		vfReach("checked")
 	})
+}
+
+// H_C06_server_stream: the server side of one stream driven directly (internal/server's exported
+// NewServerStream) over a transport on which one write - any of them - fails once: the handler sets
+// response metadata, sends two messages and ends with a trailer, carrying on after a failed send.
+// Of the envelopes that did reach the wire, only the first may carry response metadata, there is
+// at most one trailer and nothing follows it.
+func H_C06_server_stream() {
+	failAt := vfChoice("failAt", 4) // 0: no failure; k: the k-th write fails
+	explicit := vfParam("sendheader", 0)
+	conn := newZZConn()
+	rw := &zzFailNth{rw: conn, n: failAt}
+	ss, err := server.NewServerStream(context.Background(), 1, "/"+zzSvcName+"/BidiStream", "cli", "srv", rw, nil)
+	vfAssert(err == nil, "stream-created")
+	ss.SetHeader(metadata.Pairs("h", "1"))
+	if explicit == 1 {
+		ss.SendHeader(metadata.Pairs("h2", "2"))
+	}
+	ss.SendMsg(&testproto.Msg{Value: 1})
+	ss.SendMsg(&testproto.Msg{Value: 2})
+	ss.SetTrailer(metadata.Pairs("t", "1"))
+	ss.SendTrailer(nil)
+	w := conn.written()
+	trailers := 0
+	for i, r := range w {
+		if i > 0 {
+			vfAssert(!zzHasMD(r), "response-metadata-only-on-the-first-response-envelope")
+		}
+		vfAssert(trailers == 0, "nothing-after-the-trailer")
+		if r.Trailer != nil {
+			trailers++
+		}
+	}
+	if failAt == 0 {
+		vfAssert(len(w) >= 3 && zzHasMD(w[0]) && trailers == 1, "complete-history-without-failures")
+	}
+	vfReach("checked")
 }
